@@ -28,7 +28,7 @@ COMPONENTS = {"real": ["setigen.voltage.data_stream.DataStream", "setigen.voltag
 ASSUMPTIONS = ["numpy Generator.standard_normal is stream-consistent (n1 then n2 draws == n1+n2 draws); asserted at start-up",
                "at most one noise source per stream (two sources share one generator, so their draws legitimately interleave per request)",
                "custom sources are pure functions of the time array"]
-PROBES = ["chirp_parameters_given_as_quantities", "source_returns_view_of_own_array", "dyadic_bitwise", "request_len_1", "control_set_time", "control_add_time", "control_reset_start",
+PROBES = ["background_stream_subclass", "chirp_parameters_given_as_quantities", "source_returns_view_of_own_array", "dyadic_bitwise", "request_len_1", "control_set_time", "control_add_time", "control_reset_start",
           "control_update_noise", "complex_source", "descending_band", "antenna_two_pols", "negative_drift", "source_callback_error"]
 
 
@@ -104,10 +104,11 @@ def generate(rng, tier):
             ops.append({"op": "reset_start"})
         else:
             ops.append({"op": "update_noise", "m": rng.choice([1, 10, 100, 1000]), "pol": rng.randrange(pols)})
-    return {"seams": {"entropy_salt": rng.randrange(1 << 20), "scratch": "c10"},
-            "cfg": {"kind": kind, "fs": fs, "fch1": fch1, "ascending": ascending, "t_start": t_start,
-                    "seed": gen_seed(rng), "pols": pols, "dyadic": dyadic, "sources": srcs},
-            "ops": ops}
+    cfg = {"kind": kind, "fs": fs, "fch1": fch1, "ascending": ascending, "t_start": t_start,
+           "seed": gen_seed(rng), "pols": pols, "dyadic": dyadic, "sources": srcs}
+    if kind == "stream" and rng.random() < 0.3:
+        cfg["subclass"] = "background"
+    return {"seams": {"entropy_salt": rng.randrange(1 << 20), "scratch": "c10"}, "cfg": cfg, "ops": ops}
 
 
 def simplify(sc):
@@ -219,8 +220,9 @@ def with_quantities(cfg):
 
 def build(cfg, setigen_voltage):
     if cfg["kind"] == "stream":
-        s = setigen_voltage.DataStream(sample_rate=cfg["fs"], fch1=cfg["fch1"], ascending=cfg["ascending"],
-                                       t_start=cfg["t_start"], seed=cfg["seed"])
+        # ... or its public subclass, the stream type an array's shared background is made of
+        cls_ = setigen_voltage.BackgroundDataStream if cfg.get("subclass") == "background" else setigen_voltage.DataStream
+        s = cls_(sample_rate=cfg["fs"], fch1=cfg["fch1"], ascending=cfg["ascending"], t_start=cfg["t_start"], seed=cfg["seed"])
         streams = [s]
         top = s
     else:
@@ -360,6 +362,8 @@ def execute(sc, ctx):
     user_tables = list(TableSource.live)      # arrays owned by the user's sources (system under test and twin)
     if user_tables:
         ctx.hit("source_returns_view_of_own_array")
+    if cfg.get("subclass") == "background":
+        ctx.hit("background_stream_subclass")
     if not cfg["ascending"]:
         ctx.hit("descending_band")
     if cfg["pols"] == 2:
